@@ -212,6 +212,8 @@ def c11(prog, rep):
     HA.rule_i12(prog, rep)
     from . import dlist as DL
     DL.rule_fresh_position(prog, rep, ['src/containers/qlisttbl.c', 'src/containers/qlist.c'])
+    from . import dimrules as DM
+    DM.rule_dim1(prog, rep, C.C11_UNITS)
     rep.explanation = (
         'Structural memory-safety clauses over the 11 anchored units, all CFG paths: M1 every memcpy/strcpy/strncpy whose '
         'operands can share a base object (origins over reaching definitions) must be provably disjoint (affine distance = '
@@ -245,6 +247,7 @@ def c15(prog, rep):
     O.rule_a9(prog, rep, units)
     from . import bufrules as BW
     BW.rule_fmt_complete(prog, rep, units)      # a failed growth of the formatting buffer must not be taken for a complete text
+    BW.rule_valist_once(prog, rep, units)
     rep.explanation = (
         'Fault-path discipline in the nine container units (and qinternal.h macros as expanded there), all CFG paths with '
         'path-sensitive value tracking: A1 every allocation result (malloc/calloc/realloc/strdup/qmemdup/qstrdupf and repo '
@@ -273,6 +276,10 @@ def c12(prog, rep):
     E.rule_r2_src(prog, rep, E.ACCESSOR_UNITS)
     from . import strrules as SR
     SR.rule_snprintf_fit(prog, rep, E.ACCESSOR_UNITS)        # putstrf / addstrf format through the shared macro
+    from . import bufrules as BW, tree as T
+    BW.rule_valist_once(prog, rep, E.ACCESSOR_UNITS)
+    T.rule_t8(prog, rep)
+    T.rule_t8(prog, rep, rid='T8h', units=['src/containers/qhashtbl.c'], any_size=True)
     from . import hasharr as HA
     HA.rule_i7(prog, rep)
     rep.explanation = (
@@ -358,6 +365,7 @@ def c01(prog, rep):
     T.rule_fixup_bypass(prog, rep, rid='T9')
     from . import bufrules as BW
     BW.rule_fmt_complete(prog, rep, [T.UNIT])
+    BW.rule_valist_once(prog, rep, [T.UNIT])
     rep.explanation = (
         'Structural clauses of "exact sorted map" visible in code shape, over all CFG paths of qtreetbl.c: T1 node keys are only '
         'compared through tbl->compare (one orientation for all 7 call sites), copied, freed or moved - never inspected directly '
@@ -408,6 +416,7 @@ def c05(prog, rep):
     CH.rule_s7_fresh_cursor(prog, rep, [(CH.UNIT, 'qhashtbl_getnext', 1)])
     from . import bufrules as BW
     BW.rule_fmt_complete(prog, rep, [CH.UNIT])
+    BW.rule_valist_once(prog, rep, [CH.UNIT])
     from . import tree as T
     T.rule_t8(prog, rep, units=[CH.UNIT], any_size=True)    # qhashtbl accepts empty values: a NULL copy of one is not ENOMEM
     rep.explanation = (
@@ -440,6 +449,8 @@ def c10(prog, rep):
     IX.rule_growth(prog, rep)
     IX.rule_shift_distance(prog, rep)
     C.rule_m1(prog, rep, ['src/containers/qvector.c'])
+    from . import dimrules as DM
+    DM.rule_dim1(prog, rep, ['src/containers/qvector.c'])
     rep.explanation = (
         'V1 configuration immutability (who-may-write over all units): objsize/options/initnum are written by qvector() only. IDX: '
         'for each of the 10 element-address computations vector->data + E*objsize, must-facts from dominating comparisons (each '
@@ -455,6 +466,8 @@ def c18(prog, rep):
     H.rule_c18(prog, rep)
     from . import bitlaws as BL
     BL.rule_codec_purity(prog, rep, rid='H9', unit='src/utilities/qhash.c', what='hash functions')
+    from . import dimrules as DM
+    DM.rule_dim1(prog, rep, ['src/utilities/qhash.c'])
     rep.explanation = (
         'Agreement with the published algorithms as value graphs, decided on the AST without computing any hash: each function is '
         'turned by forward substitution (helpers inlined, const locals substituted, rotates recognised, commutative operands '
@@ -509,6 +522,7 @@ def c08(prog, rep):
     from . import bufrules as BW
     BW.rule_growth_room(prog, rep, [LT.UNIT])
     BW.rule_fmt_complete(prog, rep, [LT.UNIT])
+    BW.rule_valist_once(prog, rep, [LT.UNIT])
     DL.rule_fresh_position(prog, rep, [LT.UNIT])
     rep.explanation = (
         'Structural clauses of the ordered-multimap property in qlisttbl.c: L1 load returns a count incremented in the loading loop '
@@ -535,6 +549,7 @@ def c09(prog, rep):
     DL.rule_link(prog, rep, LR.LIST)
     from . import bufrules as BW
     BW.rule_fmt_complete(prog, rep, ['src/containers/qgrow.c'])
+    BW.rule_valist_once(prog, rep, ['src/containers/qgrow.c'])
     LR.rule_e7(prog, rep)
     LR.rule_e8(prog, rep)
     rep.explanation = (
@@ -636,6 +651,8 @@ def c17(prog, rep):
     LP.rule_lp2(prog, rep, PARSER_UNITS)
     LP.rule_lp3(prog, rep, PARSER_UNITS)
     LP.rule_lp4(prog, rep, PARSER_UNITS)
+    from . import dimrules as DM
+    DM.rule_dim1(prog, rep, PARSER_UNITS)
     from . import strrules as SR
     SR.rule_bytetable_index(prog, rep, ['src/utilities/qencode.c', 'src/internal/qinternal.c', 'src/extensions/qaconf.c', 'src/extensions/qconfig.c'])
     from . import configrules as CR
@@ -677,6 +694,7 @@ def c19(prog, rep):
     SR.rule_snprintf_fit(prog, rep, ['src/utilities/qstring.c'])
     from . import bufrules as BW
     BW.rule_fmt_complete(prog, rep, ['src/utilities/qstring.c'])
+    BW.rule_valist_once(prog, rep, ['src/utilities/qstring.c'])
     SR.rule_overwrite_step(prog, rep, ['src/utilities/qstring.c'])
     SR.rule_no_store_before_move(prog, rep)
     rep.explanation = (
